@@ -123,7 +123,6 @@ impl Bin {
 
                                 Ok(instrs)
                             }
-                            Reg::Report(_, _, _) => unreachable!(),
                             x => Err(Error::from(format!(
                                 "Flag expression must result in bool: {:?}",
                                 x
@@ -138,7 +137,13 @@ impl Bin {
                         .filter(|expr| !matches!(expr, Expr::None)) // comments
                         .map(|expr| {
                             scope.clear_tmps();
-                            compile_expr(expr, &mut scope).map(|t| t.0) // Result<Vec<Instr>>
+                            match compile_expr(expr, &mut scope)? {
+                                (_, Reg::None) => Err(Error::from(format!(
+                                    "stateful instruction must be bound to a variable: {:?}",
+                                    expr
+                                ))),
+                                (instrs, _) => Ok(instrs),
+                            }
                         })
                         .collect(); // do this intermediate collect to go from Vec<Result<Vec<Instr>>> -> Result<Vec<Vec<Instr>>>
 
@@ -202,7 +207,10 @@ fn compile_expr(e: &Expr, mut scope: &mut Scope) -> Result<(Vec<Instr>, Reg)> {
             }
             Prim::Num(n) => Ok((vec![], Reg::ImmNum(n as u64))),
         },
-        Expr::Cmd(_) | Expr::None => unreachable!(),
+        Expr::Cmd(_) | Expr::None => Err(Error::from(format!(
+            "expected expression, found {:?}",
+            e
+        ))),
         Expr::Sexp(ref o, ref left_expr, ref right_expr) => {
             let (mut instrs, mut left) = compile_expr(left_expr, &mut scope)?;
             let (mut right_instrs, right) = compile_expr(right_expr, &mut scope)?;
@@ -314,9 +322,11 @@ fn compile_expr(e: &Expr, mut scope: &mut Scope) -> Result<(Vec<Instr>, Reg)> {
                                 unreachable!();
                             }
                         }
-                        (&Reg::Tmp(_, _), &Reg::None) => Err(Error::from(format!(
-                            "cannot bind stateful instruction to Reg::Tmp: {:?}",
-                            right_expr,
+                        (&Reg::Tmp(_, _), &Reg::None)
+                        | (&Reg::Implicit(_, _), &Reg::None)
+                        | (&Reg::Local(_, _), &Reg::None) => Err(Error::from(format!(
+                            "cannot bind stateful instruction to {:?}: {:?}",
+                            left, right_expr,
                         ))),
                         (&Reg::Implicit(_, _), _)
                         | (&Reg::Control(_, _, _), _)
@@ -347,6 +357,12 @@ fn compile_expr(e: &Expr, mut scope: &mut Scope) -> Result<(Vec<Instr>, Reg)> {
                     // Use Reg::None as a placeholder, replaced by the parent Expr node.
                     // parent Expr node must be an Op::Bind;
                     // i.e., binding into a Tmp register is not allowed
+                    if left == Reg::None || right == Reg::None {
+                        return Err(Error::from(format!(
+                            "{:?} cannot take a stateful instruction as operand: {:?}",
+                            o, e
+                        )));
+                    }
                     instrs.push(Instr {
                         res: Reg::None,
                         op: *o,
